@@ -482,8 +482,11 @@ def build_individual(spec):
         kw['native_generation'] = spec['native']
     parents = []
     if spec['pop'] is not None:
+        by_uid = {}     # a uid listed twice is ONE individual listed twice (self-crossover)
         for pu in spec['pop']['parents']:
-            parents.append(Individual(OptGraph(OptNode('p')), uid=pu, native_generation=0))
+            if pu not in by_uid:
+                by_uid[pu] = Individual(OptGraph(OptNode('p')), uid=pu, native_generation=0)
+            parents.append(by_uid[pu])
         ops = spec['pop']['operators']
         kw['parent_operator'] = ParentOperator(spec['pop']['type'], ops if len(ops) != 1 else ops[0], parents)
     ind = Individual(graph, uid=spec['uid'], **kw)
@@ -672,7 +675,7 @@ def gen_ind_specs(ctx):
             fit = ('M', [rng.choice(DY) for _ in range(k)], [rng.choice([1.0, -1.0, 0.5]) for _ in range(k)])
         else:
             fit = ('M', [], [])
-        pk = (i // 6) % 4
+        pk = (i // 6) % 6
         if pk == 0:
             pop = None
         elif pk == 1:
@@ -681,8 +684,17 @@ def gen_ind_specs(ctx):
         elif pk == 2:
             pop = {'type': 'crossover', 'operators': [rng.choice(['one_point', 'subtree'])],
                    'parents': ['par-%d-a' % i, 'par-%d-b' % i]}
-        else:
+        elif pk == 3:
             pop = {'type': rng.choice(['mutation', 'selection']), 'operators': ['m1', 'm2'], 'parents': []}
+        elif pk == 4:
+            # self-crossover: both parents are the same individual (selection with replacement)
+            pop = {'type': 'crossover', 'operators': [rng.choice(['one_point', 'subtree'])],
+                   'parents': ['par-%d-a' % i, 'par-%d-a' % i]}
+        else:
+            # three parents with a repeat, at any position
+            three = ['par-%d-a' % i, 'par-%d-b' % i, rng.choice(['par-%d-a' % i, 'par-%d-b' % i])]
+            rng.shuffle(three)
+            pop = {'type': 'crossover', 'operators': ['one_point', 'subtree'], 'parents': three}
         out.append({'uid': 'ind-%d' % i if rng.random() < 0.7 else '%08x-0000-4000-8000-%012x' % (rng.getrandbits(32), i),
                     'graph': {'kind': 'opt', 'nodes': nodes, 'order': order},
                     'fitness': fit, 'metadata': copy.deepcopy(rng.choice(METADATA)),
@@ -710,7 +722,9 @@ def run_individuals(ctx):
         valid = f is not None and ((f[0] == 'S' and f[1][0] is not None) or (f[0] == 'M' and len(f[1]) > 0))
         ctx.count('individuals', key=json.dumps(spec, sort_keys=True), nontrivial=(valid or spec['pop'] is not None),
                   fitness=fk, evaluated=valid, parent_operator=(spec['pop'] or {}).get('type'),
-                  n_parents=len((spec['pop'] or {}).get('parents', [])), metadata=bool(spec['metadata']))
+                  n_parents=len((spec['pop'] or {}).get('parents', [])), metadata=bool(spec['metadata']),
+                  repeated_parent=(len(set((spec['pop'] or {}).get('parents', [])))
+                                   != len((spec['pop'] or {}).get('parents', []))))
         case = {'group': 'individuals', 'spec': spec}
         if not r[0]:
             ctx.disagree('individuals', case, 'model and implementation differ on the individual round trip')
